@@ -586,6 +586,11 @@ pub struct Fixture {
 	pub lowlevel_conn_ids: AtomicU64,
 	/// ids the id provider hands out next (front first) instead of counting
 	pub forced_ids: Arc<Mutex<std::collections::VecDeque<Value>>>,
+	/// the connection guard shared by every session opened through `ws_lowlevel` (limit = `cfg.max_connections`)
+	pub lowlevel_guard: ConnectionGuard,
+	/// the tasks driving the connection futures `ws::connect` returned, in the order the sessions were opened;
+	/// aborting one is "dropping the connection future", the documented way to close a session from the server side
+	pub lowlevel_conn_tasks: Arc<Mutex<Vec<tokio::task::JoinHandle<()>>>>,
 }
 
 pub type Svc = jsonrpsee_server::TowerService<Identity, Identity>;
@@ -648,8 +653,9 @@ impl Fixture {
 			base(&cfg)
 		};
 		let server_cfg = server_config_with_ids(&cfg, string_ids, forced_ids.clone());
+		let cfg_max = cfg.max_connections;
 		let (stop, handle) = stop_channel();
-		Fixture { ctx, methods, builder, stop, handle, cfg, server_cfg, lowlevel_conn_ids: AtomicU64::new(0), forced_ids }
+		Fixture { ctx, methods, builder, stop, handle, cfg, server_cfg, lowlevel_conn_ids: AtomicU64::new(0), forced_ids, lowlevel_guard: ConnectionGuard::new(cfg_max as usize), lowlevel_conn_tasks: Default::default() }
 	}
 
 	pub fn service(&self) -> Svc {
@@ -836,13 +842,15 @@ impl Fixture {
 		let stop = self.stop.clone();
 		let methods = self.methods.clone();
 		let server_cfg = self.server_cfg.clone();
-		let guard = ConnectionGuard::new(self.cfg.max_connections as usize);
+		let guard = self.lowlevel_guard.clone();
+		let tasks = self.lowlevel_conn_tasks.clone();
 		let conn_id = self.lowlevel_conn_ids.fetch_add(1, Ordering::SeqCst) as u32 + 500;
 		let svc = tower::service_fn(move |req: ::http::Request<hyper::body::Incoming>| {
 			let methods = methods.clone();
 			let server_cfg = server_cfg.clone();
 			let stop = stop.clone();
 			let guard = guard.clone();
+			let tasks = tasks.clone();
 			async move {
 				let Some(permit) = guard.try_acquire() else {
 					return Ok::<_, Infallible>(jsonrpsee_server::http::response::too_many_requests());
@@ -851,7 +859,7 @@ impl Fixture {
 				if ws::is_upgrade_request(&req) {
 					match ws::connect(req, server_cfg, methods, conn, RpcServiceBuilder::new()).await {
 						Ok((rp, conn_fut)) => {
-							tokio::spawn(conn_fut);
+							tasks.lock().push(tokio::spawn(conn_fut));
 							Ok(rp)
 						}
 						Err(rp) => Ok(rp),
